@@ -64,8 +64,8 @@ func regBody(code string) func(e *schedmc.Env) {
 
 type c01cfg struct {
 	n, r, table int
-	pre        string // "absent" | "present" | "multitable" | "emptyfrag"
-	bg         string // "" | "janitor" | "compaction"
+	pre         string // "absent" | "present" | "multitable" | "emptyfrag"
+	bg          string // "" | "janitor" | "compaction"
 }
 
 func c01Programs(tier string) []*schedmc.Program {
